@@ -1017,12 +1017,32 @@ class Interp:
             return True
         return True
 
-    def _write_refined(self, st, pl, new):
+    def _write_refined(self, st, pl, new, depth=0):
         fid, local, proj = pl
         old = st.get((fid, local))
         if old is None:
             old = Top(self._local_ty(fid, local))
         st[(fid, local)] = self._update(old, proj, new, False)
+        # the refined local may be a plain copy of another place that has not been written since: refine that too
+        if not proj and depth < 4:
+            c = st.get(("c", fid, local))
+            if c is not None:
+                src, stamp = c
+                if st.get(("w", src[0], src[1]), 0) <= stamp:
+                    cur = self.materialize(self.read_resolved(st, ("place", src)))
+                    if type(cur) is type(new) and isinstance(new, (Fl, In)):
+                        m = new if isinstance(new, In) else new
+                        if isinstance(new, In) and isinstance(cur, In):
+                            m = In(max(cur.lo, new.lo), min(cur.hi, new.hi), cur.bits, cur.signed)
+                            if m.is_bottom():
+                                return
+                        elif isinstance(new, Fl):
+                            m = cur.meet_ivs(new.ivs, new.pinf, new.ninf, new.nan) if True else new
+                            m = Fl(m.ivs, cur.pinf and new.pinf, cur.ninf and new.ninf, cur.nan and new.nan, cur.nz and new.nz)
+                            if m.is_bottom():
+                                return
+                        if m != cur:
+                            self._write_refined(st, src, m, depth + 1)
 
     # ------------------------------------------------------------------ function analysis
     frames = {}
@@ -1086,7 +1106,7 @@ class Interp:
                 # drop this frame's dead locals (they would only pollute joins, e.g. stale branch conditions)
                 lv = live_in[succ]
                 s2 = {k: v for k, v in s2.items() if not ((k[0] == fid and k[1] not in lv and k[1] not in always_live) or
-                                                          (k[0] == "w" and k[1] == fid and k[2] not in lv and k[2] not in always_live))}
+                                                          (k[0] in ("w", "c") and k[1] == fid and k[2] not in lv and k[2] not in always_live))}
                 old = in_states.get(succ)
                 if old is None:
                     in_states[succ] = s2
@@ -1110,7 +1130,7 @@ class Interp:
         self.flow_preds.pop(fid, None)
         if ret_state is None:
             return None, None       # diverges
-        out = {k: v for k, v in ret_state.items() if not (k[0] == fid or (k[0] == "w" and k[1] == fid))}
+        out = {k: v for k, v in ret_state.items() if not (k[0] == fid or (k[0] in ("w", "c") and k[1] == fid))}
         return ret_val, out
 
     def exec_block(self, inst, fid, bi, st):
@@ -1129,6 +1149,13 @@ class Interp:
                     st[(fid, pl["l"])] = val
                     self.stamp += 1
                     st[("w", fid, pl["l"])] = self.stamp
+                    rv_ = s["rv"]
+                    if rv_["k"] == "use" and rv_["op"].get("k") in ("copy", "move") and isinstance(val, (Fl, In)):
+                        r_ = self.resolve(st, fid, rv_["op"])
+                        if r_[0] == "place" and r_[1][0] != "static":
+                            st[("c", fid, pl["l"])] = (r_[1], self.stamp)
+                    else:
+                        st.pop(("c", fid, pl["l"]), None)
                 else:
                     self.write_resolved(st, self.resolve(st, fid, pl), val)
             elif k == "set_discriminant":
@@ -1553,6 +1580,11 @@ def join_states(a, b):
         if k in out:
             if k[0] == "w":
                 out[k] = max(out[k], v)
+            elif k[0] == "c":
+                if out[k] != v:
+                    out[k] = (v[0], min(out[k][1], v[1])) if out[k][0] == v[0] else None
+                    if out[k] is None:
+                        del out[k]
             else:
                 o = out[k]
                 if o is not v:
@@ -1561,7 +1593,10 @@ def join_states(a, b):
                     else:
                         out[k] = join(o, v)
         else:
-            out[k] = v
+            if k[0] != "c":
+                out[k] = v
+    for k in [k for k in out if k[0] == "c" and k not in b]:
+        del out[k]
     return out
 
 
@@ -1571,6 +1606,9 @@ def widen_states(old, new, lm):
         if k in out:
             if k[0] == "w":
                 out[k] = max(out[k], v)
+            elif k[0] == "c":
+                if out[k] != v:
+                    del out[k]
             else:
                 o = out[k]
                 if isinstance(o, DiscrIn) or isinstance(v, DiscrIn):
@@ -1587,12 +1625,12 @@ def states_equal(a, b):
         # stamps may add keys; compare values of non-stamp keys
         pass
     for k, v in a.items():
-        if k[0] == "w":
+        if k[0] == "w" or k[0] == "c":
             continue
         if k not in b or not (b[k] == v):
             return False
     for k in b:
-        if k[0] != "w" and k not in a:
+        if k[0] != "w" and k[0] != "c" and k not in a:
             return False
     return True
 
